@@ -302,3 +302,8 @@ func EdgeDominates(from, to, b *ssa.BasicBlock) bool {
 	}
 	return n == 1
 }
+
+// Sizeof: the size in bytes of a type on the analysed platform (amd64 sizes).
+func (c *Ctx) Sizeof(t types.Type) int64 {
+	return types.SizesFor("gc", "amd64").Sizeof(t)
+}
